@@ -12,8 +12,7 @@ from vlib.common import SPEC, log
 
 LEVEL = "model_checking"
 SPEC_DIR = "CliParser"
-MC_ACTIONS = ["MCGetOpt", "MCRewindR", "MCRewindO", "MCDispatch"]
-MC_SWITCH_ACTIONS = MC_ACTIONS + ["MCSetTable", "MCSetOptstr", "MCSetArgv"]
+MC_SWITCH_ACTIONS = ["MCGetOpt", "MCRewindR", "MCRewindO", "MCDispatch", "MCSetTable", "MCSetOptstr", "MCSetArgv"]
 
 # Defects of the unchanged library that this check found and that are not repaired (see spec/CliParser/regress/*.script and
 # the X07 paragraph of DESIGN section 13). While an id is listed here, the inputs that trigger it are kept out of the
@@ -88,6 +87,10 @@ class Run:
 
     def mode(self, want=None):
         m = want or self.rng.choice("RO")
+        if self.av is None and (want is None or want == "I"):
+            m = self.rng.choice("IIRO") if want is None else "I"     # first vector of a process: nothing needs resetting
+        elif m == "I":
+            m = "R"
         if m == "O" and self.dirty and "D1" in OPEN_DEFECTS:
             m = "R"
         if m == "R":
@@ -95,8 +98,9 @@ class Run:
         return m
 
     def argv(self, av, want=None):
+        m = self.mode(want)
         self.av = list(av)
-        self.lines.append(argv_line(self.mode(want), av))
+        self.lines.append(argv_line(m, av))
 
     def rewind(self, want=None):
         self.lines.append("REWIND " + self.mode(want))
@@ -243,7 +247,7 @@ def random_token(rng, tab):
                           (["-" + chr(rng.choice(vals)) + "val"] if vals else []) + (["--" + rng.choice(names) + "=v"] if names else []))
     if q < 0.72:
         return ""
-    return rng.choice(["v", "val", "file.txt", "123", "a", "=", ":", "?", "x-y", "a b", "--x"[2:], "\xe9", "opt=1", "/dev/null"])
+    return rng.choice(["v", "val", "file.txt", "123", "a", "=", ":", "?", "x-y", "a b", "x", "\xe9", "opt=1", "/dev/null"])
 
 
 def random_exec(rng):
@@ -364,13 +368,14 @@ def run(ctx):
     if os.environ.get("VERIF_SKIP_MC"):
         ctx.extra["model_checking_skipped"] = True
     else:
-        ctx.mc(SPEC_DIR, "CliParserMC", "MC.cfg", timeout=1500, xmx="6g", workers=8,
-               required_actions=["CliParserMC!" + a for a in MC_ACTIONS])
+        # the vacuity guard (every action taken) runs on the small configuration where the table, optstring and argv may also
+        # be replaced on the way; the large ones run without the coverage instrumentation
         ctx.mc(SPEC_DIR, "CliParserMC", "MC_switch.cfg", timeout=900, xmx="4g", workers=4,
                required_actions=["CliParserMC!" + a for a in MC_SWITCH_ACTIONS])
+        ctx.mc(SPEC_DIR, "CliParserMC", "MC.cfg", timeout=1500, xmx="6g", workers=4, coverage=False)
         if thorough:
-            ctx.mc(SPEC_DIR, "CliParserMC", "MC_wide.cfg", timeout=3000, xmx="8g", workers=8, coverage=False)
-            ctx.mc(SPEC_DIR, "CliParserMC", "MC_thorough.cfg", timeout=6000, xmx="12g", workers=8, coverage=False)
+            ctx.mc(SPEC_DIR, "CliParserMC", "MC_wide.cfg", timeout=3000, xmx="8g", workers=4, coverage=False)
+            ctx.mc(SPEC_DIR, "CliParserMC", "MC_thorough.cfg", timeout=6000, xmx="12g", workers=4, coverage=False)
     rng = random.Random(ctx.seed)
     runs = []
     # 1. regression scripts (strict members of the run unless their defect is still open)
@@ -380,7 +385,8 @@ def run(ctx):
     ctx.extra["regression_scripts"] = len(strict_reg)
     # 2. model -> code: TLC-generated behaviours
     want = 300 if not thorough else 3000
-    scripts, _ = tlc.gen_scripts(SPEC_DIR, "CliParserMC", "Gen.cfg", ctx.outdir, num=want, depth=40, seed=ctx.seed, workers=4)
+    gen_cfg = "Gen_noempty.cfg" if "D2" in OPEN_DEFECTS else "Gen.cfg"      # (same model, alphabet without the empty string)
+    scripts, _ = tlc.gen_scripts(SPEC_DIR, "CliParserMC", gen_cfg, ctx.outdir, num=want, depth=40, seed=ctx.seed, workers=4)
     fam = {}
     for s in scripts:        # simulation prints every candidate last step: keep one script per prefix
         fam.setdefault(repr(s["ops"][:-1]), s)
@@ -390,13 +396,13 @@ def run(ctx):
     runs += [g for g in gen if g]
     # 3. the bounded set the model explores, on the real code: every argv of <= n tokens
     if not thorough:
-        b = bounded_execs(rng, TOKENS_ALL, 2, [T1, T2, T3]) + bounded_execs(rng, TOKENS_CORE, 3, [T1, T2])
+        b = bounded_execs(rng, TOKENS_ALL, 3, [T1]) + bounded_execs(rng, TOKENS_ALL, 2, [T2, T3]) + bounded_execs(rng, TOKENS_CORE, 4, [T2])
     else:
-        b = bounded_execs(rng, TOKENS_ALL, 3, [T1, T2, T3]) + bounded_execs(rng, TOKENS_CORE, 4, [T1, T2])
+        b = bounded_execs(rng, TOKENS_ALL, 4, [T1]) + bounded_execs(rng, TOKENS_ALL, 3, [T2, T3]) + bounded_execs(rng, TOKENS_CORE, 5, [T2])
     ctx.extra["bounded_exhaustive_executions"] = len(b)
     runs += b
     # 4. seeded random command lines and dispatches
-    nrand, ndisp = (900, 250) if not thorough else (20000, 4000)
+    nrand, ndisp = (1500, 300) if not thorough else (20000, 4000)
     runs += [random_exec(rng) for _ in range(nrand)]
     runs += [dispatch_exec(rng) for _ in range(ndisp)]
     ctx.extra["random_scripts"] = nrand
